@@ -413,6 +413,14 @@ def exact_searches(res, reqs):
 
 
 def c19(res, tier, seed, deep):
+    # structural scan: no new source of nondeterminism may appear in the search path
+    try:
+        cur = json.load(open(os.path.join(wee.BUILD, "fingerprints.json"))).get("nondet")
+        base = json.load(open(os.path.join(VERIF, "fingerprints.baseline.json"))).get("nondet")
+        if cur != base:
+            res.broken.append(f"tie(a): sources of nondeterminism in the search path changed: {cur} (validated: {base})")
+    except OSError:
+        pass
     rnd = random.Random(seed)
     n = 60 if tier == "thorough" else (24 if deep else 10)
     fens = rnd.sample(positions(seed + 19, 400), n)
